@@ -24,7 +24,9 @@ HdrOk(e) ==
                [] e.kind = "msg" -> MsgBegin(e.name, e.a, e.seq)
   IN
   /\ Chk(e.wst = "ok" /\ e.enc = enc, R(e, e.kind, "WriteHeader", IF e.wst = "ok" THEN "bytes-differ" ELSE e.wst))
-  /\ Chk(e.r.st = "ok" /\ e.r.n = Len(enc) /\ e.r.a = e.a /\ e.r.b2 = e.b2 /\ e.r.num = e.n /\ e.r.name = e.name /\ e.r.seq = e.seq,
+  \* (a count that no data can back - e.g. 2^31-1 elements in a few bytes - may be refused by a robust reader)
+  /\ Chk((e.r.st = "ok" \/ (~e.backed /\ e.r.st = "err"))
+         /\ (e.r.st = "ok" => e.r.n = Len(enc) /\ e.r.a = e.a /\ e.r.b2 = e.b2 /\ e.r.num = e.n /\ e.r.name = e.name /\ e.r.seq = e.seq),
          R(e, e.kind, "ReadHeader", IF e.r.st # "ok" THEN e.r.st ELSE "value"))
 SkipOk(e) ==
   LET r == Dec(e.t, e.b, 1) IN
